@@ -16,7 +16,7 @@ OUT = 'free texts longer than the bounds, non-ASCII, BOM, machine files, testcas
 MANIFEST = dict(
     text='Bounded symbolic decision: for ALL source texts within the stated bounds (not a sample) the real lexer+parser either raise a located ParseException or produce a tree '
          'whose full-fidelity printing is the input, with exact call/array extents. The partition of the input space is made by the code\'s own branches.',
-    note='Trusted: symx engine incl. regex interpreter, z3. Bounds: free text <=3 (quick) / 4 (thorough) over ASCII 1..126; <=5/6 over the token alphabet; windows of 3/4 symbolic '
+    note='Trusted: symx engine incl. regex interpreter, z3. Bounds: free text <=3 (quick) / 4 (thorough) over ASCII 1..126; <=4/5 over the token alphabet; windows of 3/4 symbolic '
          'characters in 12 contexts; skeletons with string bodies <=2.')
 
 mp = RawPrinter = AstVisitor = None
@@ -172,7 +172,7 @@ def obligations(tier):
     out = []
     for n in range(0, 4 if q else 5):
         out.append(Obligation('text[%d]' % n, ob_free(n, False), dict(length=n, alphabet='ASCII 1..126'), labels=('accept', 'lex-reject') if n else ('accept',), max_paths=8000000))
-    for n in (4,) if q else (4, 5, 6):
+    for n in (4,) if q else (4, 5):
         out.append(Obligation('tokens[%d]' % n, ob_free(n, True), dict(length=n, alphabet=TOK), labels=('accept', 'parse-reject'), max_paths=30000000, classify=classify))
     for ctx in CONTEXTS:
         for w in ((3,) if q else (3, 4)):
